@@ -302,6 +302,28 @@ for i, cap in ((I(8, 3), 10800), (I(16, 2), 10800)):
           funcs='BUint / and % (Knuth D incl. q-hat corrections and add-back)', bound='dividend digits over the boundary alphabet; all divisors; postcondition n = q*d + r, r < d'))
 add(H('C03', "c03_u_semi_d16x2", 'c03_u_semi', f"4, {I(16, 2).U}, u16, 2, u64", tier='thorough', cap=10800, inst=I(16, 2).label, core=False, mem_gb=12,
       funcs='BUint / and % (Knuth D, u16 digits)', bound='all dividends; divisor digits over the boundary alphabet'))
+
+# concrete multi-digit divisors x fully symbolic dividends (Knuth D at widths where two symbolic operands do not finish)
+C03_CDIV = {
+    'd8x4': (I(8, 4), [('8001', [0x01, 0x80, 0, 0]), ('ffff', [0xff, 0xff, 0, 0]), ('0101', [0x01, 0x01, 0, 0]), ('80ff', [0xff, 0x80, 0, 0]), ('7fff', [0xff, 0x7f, 0, 0]),
+                      ('800001', [0x01, 0x00, 0x80, 0]), ('ffff01', [0x01, 0xff, 0xff, 0]), ('010001', [0x01, 0x00, 0x01, 0])]),
+    'd16x3': (I(16, 3), [('80000001', [0x0001, 0x8000, 0]), ('ffffffff', [0xffff, 0xffff, 0]), ('00010001', [0x0001, 0x0001, 0]), ('7fffffff', [0xffff, 0x7fff, 0])]),
+    'd32x3': (I(32, 3), [('8000000000000001', [0x00000001, 0x80000000, 0]), ('ffffffffffffffff', [0xffffffff, 0xffffffff, 0]), ('0000000100000001', [1, 1, 0])]),
+    'd64x3': (I(64, 3), [('8..01', [1, 0x8000000000000000, 0]), ('f..f', [0xffffffffffffffff, 0xffffffffffffffff, 0]), ('1_1', [1, 1, 0])]),
+}
+C03_CDIV_FAST = {'8001', '800001', '0101', 'ffff01', '010001', '80000001', '00010001'}  # 27-37 s each; the others take 130-960 s
+for key, (i, lst) in C03_CDIV.items():
+    for tag, dv in lst:
+        X = 'u64' if i.bits <= 32 else 'u128'
+        if i.bits > 64:
+            continue
+        add(H('C03', f"c03_u_cdiv_{i.tag}_{tag.replace('.', '').replace('_', '')}", 'c03_u_cdiv', f"{i.n + 2}, {i.U}, {i.digit}, {i.n}, {X}, [{', '.join(hex(v) for v in dv)}]", tier=('quick' if tag in C03_CDIV_FAST else 'thorough'), cap=(600 if tag in C03_CDIV_FAST else 3600), inst=i.label, core=False, mem_gb=8,
+              funcs='BUint / and % (Knuth D: q-hat estimate, corrections, multiply-subtract, add-back at every quotient position)', bound=f'all dividends; concrete divisor 0x{tag}; postcondition n = q*d + r, r < d'))
+for tag, dv, tier in (('8..01', [1, 0x8000000000000000, 0], 'thorough'), ('f..f', [0xffffffffffffffff, 0xffffffffffffffff, 0], 'thorough'), ('1_1', [1, 1, 0], 'thorough'),
+                      ('7..f_f..e', [0xfffffffffffffffe, 0x7fffffffffffffff, 0], 'thorough')):
+    i = I(64, 3)
+    add(H('C03', f"c03_u_cdiv_wide_{i.tag}_{tag.replace('.', '').replace('_', '')}", 'c03_u_cdiv_wide', f"{i.n + 2}, {i.U}, {i.n}, [{', '.join(hex(v) for v in dv)}]", tier=tier, cap=5400, inst=i.label, core=False, mem_gb=12,
+          funcs='BUint<3> / and % (Knuth D with u64 digits, two quotient digits)', bound=f'all 2^192 dividends; concrete two-digit divisor {tag}; limb oracle n = q*d + r, r < d'))
 c03_set(I(8, 1), 'any', 'quick', 600)
 c03_set(I(8, 2), 'any', 'quick', 900, path='small')
 c03_set(I(16, 1), 'any', 'quick', 900)
@@ -445,6 +467,21 @@ for i, tier in ((I(8, 1), 'quick'), (I(8, 3), 'quick'), (I(64, 2), 'quick'), (I(
     add(H('C18', f"c18_roots_panic_{i.tag}", 'c18_roots_panic', f"{i.n + 3}, {i.std().rsplit(',', 1)[0]}", tier=tier, inst=i.label, cap=900, kind='panic', core=False,
           funcs='Roots: nth_root(0), sqrt / even root of a negative value panic', bound='all values'))
 
+for i, tier in ((I(64, 3), 'quick'), (I(8, 17), 'quick'), (I(32, 5), 'thorough'), (I(16, 9), 'thorough'), (I(64, 5), 'thorough')):
+    stubs = [f"kani::stub(bnum::{DIG[i.digit][2]}::fixpoint, crate::c18::fixpoint_stub_{i.digit})", "kani::stub(<u128 as num_integer::Roots>::sqrt, crate::c18::u128_sqrt_stub)",
+             "kani::stub(<u128 as num_integer::Roots>::cbrt, crate::c18::u128_cbrt_stub)", "kani::stub(<u128 as num_integer::Roots>::nth_root, crate::c18::u128_nth_root_stub)"]
+    add(H('C18', f"c18_roots_shortcut_{i.tag}", 'c18_roots_shortcut', f"{i.n + 3}, {i.std().rsplit(',', 1)[0]}, bnum::BUint<8>, [{', '.join(stubs)}]", tier=tier, inst=i.label, cap=1200, stub=True, core=False,
+          funcs='Roots::nth_root (BUint, BInt): degree dispatch, zero/one and bits <= n shortcuts, delegation to the u128 implementation below 2^128, sign handling; Newton kernel (fixpoint) and u128 roots replaced by uninterpreted stand-ins',
+          bound='all values, all degrees 1..=u32::MAX; shortcut results exact, all other inputs reach the kernel'))
+
+for i, degs, tier in ((I(64, 3), (4, 16, 47, 191), 'quick'), (I(8, 17), (4, 9, 135), 'quick'), (I(32, 5), (5, 33), 'thorough'), (I(64, 5), (7, 100), 'thorough')):
+    for dg in degs:
+        stubs = [f"kani::stub(bnum::{DIG[i.digit][2]}::fixpoint, crate::c18::fixpoint_once_stub_{i.digit})"]
+        top = f"{i.digit}::MAX" if dg % 2 == 0 else f"1 << ({i.digit}::BITS - 1)"
+        add(H('C18', f"c18_roots_first_step_{i.tag}_n{dg}", 'c18_roots_first_step', f"{max(i.n + 3, 10)}, {i.std().rsplit(',', 1)[0]}, bnum::BUint<8>, {dg}, {top}, [{', '.join(stubs)}]", tier=tier, inst=i.label, cap=1800, stub=True, core=False,
+              funcs=f'Roots::nth_root({dg}): the first Newton step (guess^(n-1), division, weighted mean) evaluated on the initial guess',
+              bound=f'all values with the concrete top digit {top} (full bit length {i.bits}), concrete degree {dg}; no panic / overflow in the first step; later steps not encoded'))
+
 
 # ---------------------------------------------------------------- C10
 def c10_str(i, sg, L, lo, hi, tier, cap=1800, core=False):
@@ -485,6 +522,13 @@ for sg in ('u', 'i'):
         c10_str(i, sg, 4, 10, 10, 'thorough', cap=3600)
     add(H('C10', f"c10_bytes_{sg}_d8x1", 'c10_bytes', f"6, {I(8, 1).U if sg == 'u' else I(8, 1).I}, u8, 1, 3, 10", inst=I(8, 1).label, cap=1800, core=False, mem_gb=6,
           funcs='parse_bytes (UTF-8 validation + grammar)', bound='all byte strings of length 0..=3, radix 10'))
+for i, sg, L, R, tier in ((I(64, 1), 'u', 20, 10, 'quick'), (I(64, 1), 'i', 20, 10, 'quick'), (I(64, 2), 'u', 33, 16, 'quick'), (I(32, 2), 'i', 17, 16, 'quick'),
+                          (I(64, 2), 'u', 39, 10, 'thorough'), (I(64, 2), 'i', 40, 10, 'thorough'), (I(8, 8), 'u', 21, 10, 'thorough'), (I(16, 4), 'i', 20, 10, 'thorough'), (I(32, 2), 'u', 20, 10, 'thorough'),
+                          (I(32, 3), 'u', 25, 16, 'thorough'), (I(64, 1), 'u', 13, 36, 'thorough'), (I(64, 1), 'i', 41, 3, 'thorough'), (I(64, 2), 'u', 65, 4, 'thorough'), (I(8, 16), 'u', 33, 16, 'thorough'),
+                          (I(16, 8), 'i', 129, 2, 'thorough')):
+    T = i.U if sg == 'u' else i.I
+    add(H('C10', f"c10_strfix_{sg}_{i.tag}_r{R}_l{L}", 'c10_str_fixed', f"{L + 3}, {T}, {i.digit}, {i.n}, {L}, {R}", tier=tier, cap=1800 if tier == 'quick' else 5400, inst=i.label, core=False, mem_gb=8,
+          funcs=f"{'BUint' if sg == 'u' else 'BInt'}::from_str_radix, full-capacity strings", bound=f'all ASCII strings of length exactly {L} (capacity of the type, incl. a sign / leading zero / one digit too many), radix {R}; u128 reference parser'))
 c10_digits(I(8, 1), 'u', 10, 2, 2, 'quick', core=True)
 c10_digits(I(8, 1), 'u', 4, 16, 16, 'quick', core=True)
 c10_digits(I(8, 1), 'u', 4, 10, 10, 'quick')
@@ -548,6 +592,13 @@ for i, R, tier in ((I(8, 1), 10, 'thorough'), (I(8, 1), 16, 'thorough'), (I(8, 1
     maxd = math.ceil(i.bits / math.log2(R))
     add(H('C11', f"c11_str_neg_{i.tag}_r{R}", 'c11_str_neg', f"{maxd + 5}, {i.I}, {i.digit}, {i.n}, {R}, {maxd}", tier=tier, cap=3600, inst=i.label, core=False, mem_gb=16,
           funcs="BInt::to_str_radix for negative values ('-' + magnitude) + round trip", bound=f'all negative values, radix {R}'))
+for i, R, lg, top, tier in ((I(64, 5), 256, 8, '1', 'quick'), (I(64, 5), 16, 4, 'u64::MAX', 'quick'), (I(32, 9), 256, 8, '0x1f', 'quick'), (I(8, 40), 16, 4, '0x80', 'quick'), (I(64, 3), 8, 3, '1', 'quick'),
+                           (I(16, 17), 256, 8, '1', 'thorough'), (I(64, 5), 2, 1, '3', 'thorough'), (I(64, 5), 32, 5, '1 << 63', 'thorough'), (I(32, 5), 128, 7, '0x7fff_ffff', 'thorough'),
+                           (I(16, 9), 64, 6, '1', 'thorough'), (I(8, 33), 256, 8, '1', 'thorough'), (I(8, 17), 4, 2, '0xff', 'thorough')):
+    n = -(-((i.n - 1) * i.dbits + int(eval(top.replace('u64::MAX', str(2**64-1)).replace('_', ''))).bit_length()) // lg)
+    add(H('C11', f"c11_wide_{i.tag}_r{R}", 'c11_wide', f"{max(n, i.n) + 3}, {i.U}, {i.digit}, {i.n}, {R}, {lg}, {top}", tier=tier, cap=1800, inst=i.label, core=False, mem_gb=10,
+          funcs='BUint::to_radix_le / to_radix_be, power-of-two radix (to_bitwise_digits_le / to_inexact_bitwise_digits_le), widths above 128 bits',
+          bound=f'all values whose most significant digit is {top} (all lower digits symbolic), radix {R}; symbolic output position'))
 add(H('C11', "c11_radix_panic_d8x1", 'c11_radix_panic', f"12, {I(8, 1).U}, {I(8, 1).I}", inst=I(8, 1).label, kind='panic', cap=1800, core=False,
       funcs='to_radix_le/be, to_str_radix with an out-of-range radix', bound='radices 0, 1, 37 / 257, u32::MAX'))
 
@@ -611,6 +662,78 @@ for tier, insts in (('quick', LIN_Q), ('thorough', LIN_T + [I(64, 17), I(8, 40)]
 add(H('C16', 'c16_aliases', 'c16_aliases', '4', inst='U128..U8192 / I128..I8192', funcs='type aliases have the named widths', bound='no symbolic input'))
 
 
+# ---------------------------------------------------------------- C12
+C12_KINDS = {'b': ('Binary', 1, 'false', "b'b'", 'dm_b'), 'x': ('LowerHex', 4, 'false', "b'x'", 'dm_x'), 'X': ('UpperHex', 4, 'true', "b'x'", 'dm_ux'),
+             'o': ('Octal', 3, 'false', "b'o'", None)}
+# format-flag variants: (flags, width, plus, alt, zero, fill, align code)
+C12_FLAGS = [('', 'None', 'false', 'false', 'false', "' '", 0),
+             ('+#012', 'Some(12)', 'true', 'true', 'true', "' '", 0),
+             ('*<9', 'Some(9)', 'false', 'false', 'false', "'*'", 1),
+             ('_^+#7', 'Some(7)', 'true', 'true', 'false', "'_'", 2),
+             ('>#20', 'Some(20)', 'false', 'true', 'false', "' '", 3),
+             ('+', 'None', 'true', 'false', 'false', "' '", 0)]
+C12_FW = [0, 12, 9, 7, 20, 0]
+C12_PAD = 'kani::stub(core::fmt::Formatter::pad_integral, crate::c12::pad_integral_model)'
+
+
+def _cap(n):
+    for c in (8, 16, 24, 32, 48, 64, 128, 192, 320):
+        if n <= c:
+            return c
+    raise ValueError(n)
+
+
+def c12_radix(i, sg, kind, fv, tier, cap=900, core=False, gen='any'):
+    tr, lg, up, pc, dm = C12_KINDS[kind]
+    T = i.U if sg == 'u' else i.I
+    maxlen = -(-i.bits // lg)
+    fl, W, P, A, Z, F, AL = C12_FLAGS[fv]
+    stubs = [C12_PAD]
+    if not dm:
+        stubs += [f"kani::stub(bnum::{DIG[i.digit][2]}::to_str_radix, crate::c12::tsr_{i.digit})"]
+    if dm:
+        stubs += [f'kani::stub(std::string::String::new, crate::c12::cap{_cap(maxlen)})', f'kani::stub(<{i.digit} as core::fmt::{tr}>::fmt, crate::c12::{dm}_{i.digit})', f'kani::stub(<u128 as core::fmt::{tr}>::fmt, crate::c12::{dm}_u128)']
+    unw = max(maxlen, -(-i.dbits // lg) if dm else 0, i.n, C12_FW[fv]) + 3
+    add(H('C12', f"c12_{ {'b': 'bin', 'x': 'lhex', 'X': 'uhex', 'o': 'oct'}[kind]}_{sg}_{i.tag}_f{fv}" + ('' if gen == 'any' else '_alpha'), 'c12_radix',
+          f"{unw}, {T}, {i.digit}, {i.n}, {lg}, {up}, {pc}, {maxlen}, \"{kind}\", \"{{:{fl}{kind}}}\", \"{{:{fl}}}\", {W}, {P}, {A}, {Z}, {F}, {AL}, {gen}, [{', '.join(stubs)}]",
+          tier=tier, cap=cap, inst=i.label, stub=True, core=core, mem_gb=8,
+          funcs=f"{'BUint' if sg == 'u' else 'BInt'} core::fmt::{tr} (format spec {{:{fl}{kind}}})",
+          bound=('all values' if gen == 'any' else 'every digit over the boundary alphabet') + f'; symbolic character index; the (sign, prefix, numeral) triple handed to pad_integral + option pass-through; unwind {unw}'))
+
+
+def c12_dec(i, sg, kind, fv, tier, cap=1800, core=False):
+    T = i.U if sg == 'u' else i.I
+    ch, tr = {0: ('', 'Display'), 1: ('?', 'Debug'), 2: ('e', 'LowerExp'), 3: ('E', 'UpperExp')}[kind]
+    fl, W, P, A, Z, F, AL = C12_FLAGS[fv]
+    nd = len(str(2 ** i.bits - 1))
+    stubs = [C12_PAD, f"kani::stub(bnum::{DIG[i.digit][2]}::to_str_radix, crate::c12::tsr_{i.digit})"]
+    if kind >= 2:
+        stubs.append('kani::stub(core::str::slice_error_fail_rt, crate::c12::slice_error_fail_stub)')
+        stubs.append('kani::stub(core::result::unwrap_failed, crate::c12::unwrap_failed_stub)')
+    add(H('C12', f"c12_{tr.lower()}_{sg}_{i.tag}_f{fv}", 'c12_dec', f"{max(nd + 6, C12_FW[fv]) + 3}, {T}, {i.digit}, {i.n}, {nd}, {kind}, \"{ch}\", \"{{:{fl}{ch}}}\", \"{{:{fl}}}\", {W}, {P}, {A}, {Z}, {F}, {AL}, [{', '.join(stubs)}]",
+          tier=tier, cap=cap, inst=i.label, stub=True, core=core, mem_gb=12,
+          funcs=f"{'BUint' if sg == 'u' else 'BInt'} core::fmt::{tr} (format spec {{:{fl}{ch}}})",
+          bound='all values; symbolic character index; the (sign, prefix, numeral) triple handed to pad_integral + option pass-through'))
+
+
+for i, sg, kind, fv, tier in ((I(8, 2), 'u', 'x', 1, 'quick'), (I(8, 3), 'i', 'x', 2, 'quick'), (I(16, 2), 'u', 'x', 3, 'quick'), (I(32, 2), 'i', 'x', 1, 'quick'), (I(64, 2), 'u', 'x', 4, 'quick'),
+                              (I(64, 1), 'i', 'x', 0, 'quick'), (I(16, 1), 'u', 'x', 5, 'quick'), (I(64, 3), 'i', 'x', 5, 'quick'),
+                              (I(8, 2), 'i', 'X', 3, 'quick'), (I(16, 2), 'i', 'X', 1, 'quick'), (I(64, 2), 'i', 'X', 2, 'quick'), (I(32, 1), 'u', 'X', 0, 'quick'), (I(8, 3), 'u', 'X', 5, 'quick'),
+                              (I(8, 1), 'u', 'b', 1, 'quick'), (I(8, 1), 'i', 'b', 2, 'quick'), (I(8, 2), 'u', 'b', 3, 'quick'), (I(16, 1), 'i', 'b', 0, 'quick'), (I(8, 3), 'i', 'b', 5, 'quick'),
+                              (I(8, 1), 'u', 'o', 1, 'quick'), (I(8, 1), 'i', 'o', 3, 'quick'), (I(8, 2), 'u', 'o', 5, 'quick'),
+                              (I(8, 4), 'u', 'x', 0, 'thorough'), (I(8, 5), 'i', 'x', 1, 'thorough'), (I(16, 3), 'u', 'x', 2, 'thorough'), (I(32, 3), 'u', 'x', 3, 'thorough'), (I(64, 3), 'u', 'x', 1, 'thorough'),
+                              (I(64, 3), 'i', 'X', 4, 'thorough'), (I(32, 2), 'u', 'X', 2, 'thorough'), (I(8, 17), 'i', 'X', 5, 'thorough'), (I(16, 9), 'u', 'x', 0, 'thorough'), (I(32, 5), 'i', 'x', 3, 'thorough'),
+                              (I(8, 3), 'u', 'b', 1, 'thorough'), (I(16, 2), 'u', 'b', 2, 'thorough'), (I(32, 1), 'u', 'b', 3, 'thorough'), (I(64, 1), 'i', 'b', 1, 'thorough'), (I(32, 2), 'i', 'b', 0, 'thorough'),
+                              (I(64, 2), 'u', 'b', 4, 'thorough'), (I(8, 2), 'i', 'b', 1, 'thorough'),
+                              (I(16, 1), 'i', 'o', 1, 'thorough'), (I(32, 1), 'u', 'o', 2, 'thorough'), (I(64, 1), 'i', 'o', 0, 'thorough')):
+    c12_radix(i, sg, kind, fv, tier, cap=900 if tier == 'quick' else 3600, core=(tier == 'quick' and i.bits <= 64))
+for i, sg, kind, fv, tier in ((I(8, 1), 'u', 0, 1, 'quick'), (I(8, 1), 'i', 0, 3, 'quick'), (I(8, 1), 'u', 1, 2, 'quick'), (I(8, 1), 'i', 1, 5, 'quick'), (I(8, 2), 'i', 0, 5, 'quick'),
+                              (I(16, 1), 'u', 0, 2, 'quick'),
+                              (I(8, 1), 'u', 2, 0, 'thorough'), (I(8, 1), 'i', 2, 2, 'thorough'), (I(8, 1), 'u', 3, 3, 'thorough'), (I(8, 1), 'i', 3, 5, 'thorough'),
+                              (I(32, 1), 'i', 0, 1, 'thorough'), (I(64, 1), 'u', 0, 3, 'thorough'), (I(32, 2), 'i', 1, 0, 'thorough'), (I(8, 2), 'i', 2, 1, 'thorough')):
+    c12_dec(i, sg, kind, fv, tier, cap=1800 if tier == 'quick' else 7200, core=(tier == 'quick' and i.bits <= 8))
+
+
 def by_prop(p):
     return [h for h in REG if h.prop == p]
 
@@ -634,6 +757,8 @@ OUTSIDE = {
     'C04': ['panic message text', 'multiplying / dividing operators above 8 bits (quick tier)'],
     'C08': ['pow and ilog(base) above 8 bits (quick tier), above 16 bits (thorough tier)'],
     'C11': ['N >= 2 in the quick tier, N >= 3 in every tier', 'values above 65535 for 32/64-bit digit types'],
+    'C12': ['widths above 128 bits (192 thorough)', 'decimal and exponent forms above 8 bits (32 bits thorough)', 'the precision field and the {:x?} / {:X?} flags (not in the property)',
+            'the text core::fmt produces from the (sign, prefix, numeral) triple (pad_integral is trusted; its model is validated natively)'],
     'C16': ['decimal parsing / printing across configurations', 'mul/div/pow equivalence above 16 bits outside the boundary alphabet'],
     'C17': ['Mul/Div/Rem operator forms above 8 bits (quick tier)'],
     'C18': ['sqrt / cbrt / nth_root on general values', 'Integer arithmetic above 8 bits (quick tier)'],
@@ -644,6 +769,9 @@ ASSUME = {
 }
 
 HOOK_COMMITS = ['42da9b2']
+
+# native differential tests of the models that replace core / bnum functions under Kani (run by the driver before the Kani jobs)
+NATIVE_VALIDATION = {'C12': 'c12::validate'}
 
 # how many VERIF_SEED-chosen members of each seeded thorough family join the quick tier
 SEEDED_EXTRA = {'C11': 3, 'C09': 2, 'C13': 2}
@@ -745,6 +873,22 @@ CLAIMS = {
                   'sampling above 8 bits in the quick tier (16 bits thorough; the range multiplication is a full multiplier); streams with more than 2 consecutive rejections; statistical quality of the RNG.',
                   'order comparison on exact integers; L(h) = ceil(h*2^W/R) computed in the harness'),
 }
+CLAIMS['C12'] = dict(
+    text='Bounded model checking of the compiled bnum formatting impls (Kani -> CBMC -> SAT), decomposed at Formatter::pad_integral: for ALL values of the listed '
+         'instantiations every Binary / LowerHex / UpperHex / Octal / Display / Debug / LowerExp / UpperExp impl (unsigned and signed) ends in exactly one call '
+         'pad_integral(is_nonnegative, prefix, numeral) whose triple equals an independent oracle (bit slicing of the two\'s-complement pattern for the radix forms; '
+         'decimal digits, sign and d.ddde<k> with trimmed zeros for the decimal and exponent forms), with the caller\'s Formatter options (width, fill, alignment, +, #, 0) '
+         'reaching pad_integral unchanged and nothing else written to the Formatter. Because pad_integral is the single core function that applies the flags - the '
+         'primitive impls end in the same call - equal triples give equal text for EVERY flag combination. Radix forms: 8..128 bits, all four digit types with N = 1, 2, 3 '
+         '(digit-by-digit assembly with interior zero padding); decimal / exponent / octal forms: 8-bit values (16/32-bit in the thorough tier). This is a finite matrix of '
+         'instantiations decided exhaustively per instantiation, hence model checking and not proof.',
+    note='Trusted: Kani MIR->GOTO translation, CBMC, CaDiCaL; core::fmt::Formatter::pad_integral itself (it is "what Rust prints"); three stub models, each validated '
+         'natively against the real function on every run before the Kani jobs: pad_integral (recorder + ASCII model, 107 000 flag/width/fill/alignment combinations), the '
+         'digit formatters <u8..u64 as Binary/LowerHex/UpperHex>::fmt for the two option sets bnum uses (all u8/u16 values, 40 000 sampled u32/u64 values, every pad width), and '
+         'BUint::to_str_radix for the decimal/octal/exponent harnesses (decided on its own under C11). String::new is replaced by String::with_capacity (not observable). '
+         'Outside the claim: widths above 128 bits (192 bits thorough); decimal/exponent forms above 8 bits (32 thorough); precision and the {:x?} debug-hex flags (not part of the property); '
+         'the text core produces from the triple is not re-verified.',
+    technique='Kani/CBMC bounded model checking of the real formatting code with Formatter::pad_integral stubbed by a recording model (SAT-decided for all values; stub models validated natively; counterexamples replayed natively against the unstubbed code)',
+    ref='DESIGN.md section 11')
+
 NOT_APPLICABLE = {f'C{n:02d}': 'check not built yet in this revision of /verif (work in progress)' for n in range(1, 21)}
-NOT_APPLICABLE['C12'] = ('formatting traits: Kani 0.68 mis-encodes the `if s.is_empty() {"0"} else {&s}` &str expression used by bnum fmt (spurious '
-                         'counterexample independent of bnum) and core::fmt + String blows up past 17 GB for one symbolic 8-bit value; numeral content is decided under C11')
